@@ -140,4 +140,55 @@ theorem dict_roundtrip (v : Violation) : fromDict (toDict v) = some v := by
   cases v with
   | mk r f l c m s => cases s <;> simp [toDict, fromDict, Dict.get, List.find?]
 
+/-- two different violations never travel as the same record (the transfer cannot merge findings) -/
+theorem toDict_injective (a b : Violation) (h : toDict a = toDict b) : a = b := by
+  have ha := dict_roundtrip a
+  rw [h, dict_roundtrip b] at ha
+  exact (Option.some.inj ha).symm
+
+/-- a whole batch of worker results crosses the process boundary unchanged: nothing dropped,
+    nothing duplicated, order kept -/
+theorem batch_roundtrip (vs : List Violation) : (vs.map toDict).filterMap fromDict = vs := by
+  induction vs with
+  | nil => rfl
+  | cons v vs ih => simp [dict_roundtrip, ih]
+
+/-- a record whose severity is not the single `Severity` member is rejected, never defaulted -/
+theorem bad_severity_rejected (v : Violation) (sev : String) (h : sev ≠ "error") :
+    fromDict ((toDict v).map fun kv => if kv.1 == "severity" then (kv.1, Val.str sev) else kv) = none := by
+  cases v with
+  | mk r f l c m s =>
+    cases s <;> simp [toDict, fromDict, Dict.get, List.find?] <;> split <;> simp_all
+
+/-! ## Worker count -/
+
+/-- the pool is never asked for zero workers when the default and the CPU count are positive,
+    whatever `--max-workers` says (0 and "not given" both mean the default) -/
+theorem effectiveWorkers_pos (mw : Option Nat) (dflt cpu : Nat) (hd : 0 < dflt) (hc : 0 < cpu) :
+    0 < effectiveWorkers mw dflt cpu := by
+  unfold effectiveWorkers
+  cases mw with
+  | none => simp; omega
+  | some k => by_cases hk : k = 0 <;> simp [hk] <;> omega
+
+/-- the default never exceeds the CPU count or the configured ceiling -/
+theorem effectiveWorkers_default_le (dflt cpu : Nat) :
+    effectiveWorkers none dflt cpu ≤ dflt ∧ effectiveWorkers none dflt cpu ≤ cpu ∧
+    effectiveWorkers (some 0) dflt cpu = effectiveWorkers none dflt cpu := by
+  simp [effectiveWorkers]; omega
+
+/-- an explicit positive `--max-workers` is taken as given -/
+theorem effectiveWorkers_explicit (k dflt cpu : Nat) (hk : 0 < k) :
+    effectiveWorkers (some k) dflt cpu = k := by
+  have : k ≠ 0 := by omega
+  simp [effectiveWorkers, this]
+
+/-- below the pooling threshold `--parallel` *is* the sequential run, state and output -/
+theorem small_runs_never_pool (R : Rules F V E) (P : Policy) (s : St E) (mw : Option Nat) (dflt cpu : Nat)
+    (fs done : List F) (hne : fs ≠ []) (hsmall : fs.length < effectiveWorkers mw dflt cpu * 2) :
+    lintFilesParallel R P s (effectiveWorkers mw dflt cpu) fs done = lintFiles R P s fs := by
+  have he : fs.isEmpty = false := by cases fs <;> simp_all
+  simp [lintFilesParallel, he, hsmall]
+
+
 end ThaiLintModel.C07
